@@ -1,0 +1,35 @@
+//go:build verif
+
+// Contracts for the deductive checker in /verif (read only with -tags verif).
+
+package ecdh
+
+// constant-time comparison of two equally long big-endian numbers (assumed)
+//@ func isLess trusted
+//@   requires len(a) == len(b) && len(a) <= 72
+//@   ensures result <==> BEV(arr(a), offof(a), len(a)) < BEV(arr(b), offof(b), len(b))
+//@   modifies nothing
+
+// ---- private scalars outside [1, n-2] are refused (C14); the key holds a private copy of the bytes
+//@ func (*sm2Curve).NewPrivateKey property C14,C12
+//@   requires c != nil && len(c.scalarOrderMinus1) == 32
+//@   ensures err != nil ==> result0 == nil
+//@   ensures err == nil ==> result0 != nil && len(key) == len(c.scalarOrderMinus1) && BEV(arr(key), offof(key), len(key)) < BEV(arr(c.scalarOrderMinus1), offof(c.scalarOrderMinus1), len(c.scalarOrderMinus1))
+//@   ensures err == nil ==> len(result0.privateKey) == len(key) && fresh(result0.privateKey) && forall j :: 0 <= j && j < len(key) ==> result0.privateKey[j] == key[j]
+//@   freshornil result0
+//@   modifies nothing
+
+// ---- key generation (C12): the private key is the last 32-byte block read from the random source
+// with byte 1 XOR-ed with 0x42; a block out of range costs exactly one further block; a failing
+// source gives an error and no key
+//@ func (*sm2Curve).GenerateKey property C12
+//@   requires c != nil && rand != nil && len(c.scalarOrderMinus1) == 32
+//@   let P0 := ghost(rndpos, id(rand))
+//@   let RA := RNDARR(id(rand))
+//@   ensures err == nil ==> result0 != nil && len(result0.privateKey) == 32
+//@   ensures err == nil ==> forall j :: 0 <= j && j < 32 ==> result0.privateKey[j] == ite(j == 1, bxor8(RA[ghost(rndpos, id(rand)) - 32 + j], 66), RA[ghost(rndpos, id(rand)) - 32 + j])
+//@   ensures err != nil ==> result0 == nil
+//@   ensures ghost(rndpos, id(rand)) >= P0
+//@   modifies ghost(rndpos, id(rand))
+//@   loop 1 invariant len(key) == 32 && objof(key) < 0 && ghost(rndpos, id(rand)) >= P0
+//@   coverreturns
